@@ -18,6 +18,13 @@ func H_C01_mul() {
 	y := x
 	if vCfgOr("same", 0) == 0 {
 		y = vDec("y", fFinite, wy, vCfgOr("capx", 0), py)
+		if vCfgOr("ypat0", -1) >= 0 {
+			// concrete multiplier mantissa: the product is then linear in x, and rounding "needles"
+			// (exact ties, all-nines carries deep in the product) are within the solver's reach
+			for i := 0; i < wy; i++ {
+				y.mant[i] = patWord(vCfg(vN("ypat", i)))
+			}
+		}
 	}
 	z := receiver(alias, x, y, p)
 	if vCfgOr("p0", 0) == 1 {
